@@ -169,6 +169,69 @@ Proof.
     injection Hr as Hr. subst rr. cbn [filter sfile map sid fst]. rewrite (IH r eq_refl). reflexivity.
 Qed.
 
+(* ---------- recovery loads the segments of a record in ascending id order ---------- *)
+
+Lemma ins_seg_perm : forall p l, Permutation (ins_seg p l) (p :: l).
+Proof.
+  intros p. induction l as [|q l IH]; cbn [ins_seg].
+  - apply Permutation_refl.
+  - destruct (fst p <=? fst q).
+    + apply Permutation_refl.
+    + apply perm_trans with (q :: p :: l); [apply perm_skip; exact IH | apply perm_swap].
+Qed.
+
+Lemma sort_segs_perm : forall l, Permutation (sort_segs l) l.
+Proof.
+  unfold sort_segs. induction l as [|p l IH]; cbn [fold_right].
+  - apply Permutation_refl.
+  - apply perm_trans with (p :: fold_right ins_seg [] l); [apply ins_seg_perm | apply perm_skip; exact IH].
+Qed.
+
+Lemma rec_root_perm : forall sd segs segs',
+  Permutation segs segs' ->
+  forall rr, rec_root sd segs = Some rr -> exists rr', rec_root sd segs' = Some rr' /\ Permutation rr rr'.
+Proof.
+  intros sd segs segs' Hp. induction Hp as [| [x del] l l' Hp IH | [x dx] [y dy] l | l l' l'' Hp1 IH1 Hp2 IH2];
+    intros rr Hr.
+  - exists rr. split; [exact Hr | apply Permutation_refl].
+  - cbn [rec_root] in *. destruct (assocZ x sd) as [docs|]; [|discriminate].
+    destruct (rec_root sd l) as [r|]; [|discriminate]. injection Hr as Hr. subst rr.
+    destruct (IH r eq_refl) as [r' [Hr' Hpr]]. rewrite Hr'. eexists. split; [reflexivity|].
+    apply perm_skip. exact Hpr.
+  - cbn [rec_root] in *. destruct (assocZ y sd) as [dy'|]; [|discriminate].
+    destruct (assocZ x sd) as [dx'|]; [|destruct (rec_root sd l); discriminate].
+    destruct (rec_root sd l) as [r|]; [|discriminate]. injection Hr as Hr. subst rr.
+    eexists. split; [reflexivity|]. apply perm_swap.
+  - destruct (IH1 rr Hr) as [r1 [Hr1 Hp1']]. destruct (IH2 r1 Hr1) as [r2 [Hr2 Hp2']].
+    exists r2. split; [exact Hr2|]. exact (perm_trans Hp1' Hp2').
+Qed.
+
+Lemma root_live_perm : forall a b, Permutation a b ->
+  Permutation (ProofsCore1.root_live a) (ProofsCore1.root_live b).
+Proof. intros a b H. unfold ProofsCore1.root_live. apply Permutation_flat_map. exact H. Qed.
+
+(* what recovery builds from a record denotes the same contents as the record itself *)
+Lemma rec_root_sorted : forall sd segs rr,
+  rec_root sd segs = Some rr -> NoDup (map fst (ProofsCore1.root_live rr)) ->
+  exists rs, rec_root sd (sort_segs segs) = Some rs
+    /\ Permutation rr rs
+    /\ NoDup (map fst (ProofsCore1.root_live rs))
+    /\ (forall id, root_lookup rs id = root_lookup rr id).
+Proof.
+  intros sd segs rr Hr Hnd.
+  destruct (rec_root_perm sd segs (sort_segs segs) (Permutation_sym (sort_segs_perm segs)) rr Hr)
+    as [rs [Hrs Hp]].
+  exists rs. split; [exact Hrs|]. split; [exact Hp|].
+  assert (Hpl := root_live_perm rs rr (Permutation_sym Hp)).
+  split.
+  - eapply Permutation_NoDup; [apply Permutation_map; apply Permutation_sym; exact Hpl | exact Hnd].
+  - intros id. rewrite !root_lookup_live. symmetry. apply assoc_first_perm; [|exact Hnd].
+    apply Permutation_sym. exact Hpl.
+Qed.
+
+Lemma sort_segs_named : forall segs, Permutation (map fst (sort_segs segs)) (map fst segs).
+Proof. intros segs. apply Permutation_map. apply sort_segs_perm. Qed.
+
 (* ---------- canonical forms ---------- *)
 
 Lemma ins_pair_perm : forall p l, Permutation (ins_pair p l) (p :: l).
